@@ -33,7 +33,7 @@ import atomman.lammps as lmp              # noqa: E402
 chk = Check('C09', 'model_checking',
             'BFS over histories (depth<=2 all, depth 3 over a reduced alphabet in the thorough tier) of reset_units calls: '
             'every non-over-determined subset of <=4 of {length,mass,time,energy,charge} x unit-name menu, seeds, refused '
-            'calls; a state is distinct by its last accepted call.  Grammar: every binary expression tree with <=n leaves '
+            'calls; a state is distinct by its last accepted call; every named choice is also called with every permutation of its keywords.  Grammar: every binary expression tree with <=n leaves '
             '(names m,s,kg,eV,angstrom,GPa; literals 2,0.5,1e-3,10; -2 as direct exponent; exponents are literal-only '
             'subtrees) x 3 parenthesisations x 4 whitespace renderings x working-unit configurations, each string parsed by '
             'the real code and compared with direct evaluation of the tree; distinct_nontrivial = distinct expression '
@@ -266,6 +266,40 @@ def ops_all(st):
 def ops_small(st):
     return OPS_SMALL
 
+
+
+# --------------------------------------------------------------------------
+# keyword order: reset_units(**kwargs) is a keyword call, so the working units it installs cannot depend on the order in
+# which the caller wrote the keywords.  Every named choice of the menu x every permutation of its keywords.
+
+NAMED_OPS = [o for o in OPS if o['op'] == 'named']
+
+
+@chk.clause('kworder')
+def kworder(case):
+    op = NAMED_OPS[case['op']]
+    ref = reference_table(op)
+    fails = []
+    items = list(op['units'].items())
+    for perm in itertools.permutations(items):
+        if list(perm) == items:
+            continue
+        set_default()
+        try:
+            uc.reset_units(**dict(perm))
+            tab = dict(uc.unit)
+        finally:
+            set_default()
+        chk.note('keyword-orders')
+        bad = [n for n in ref if not (relerr(tab[n], ref[n]) <= 1e-13)]
+        if bad:
+            n = sorted(bad)[0]
+            fails.append(Fail(key='keyword-order:' + subkey(op),
+                              msg='reset_units(%s) installs other working units than the same keywords in the order %s (%d names differ, e.g. %s)'
+                              % (', '.join('%s=%r' % kv for kv in perm), [k for k, _ in items], len(bad), n),
+                              name=n, observed=tab[n], expected=ref[n]))
+            break
+    return fails
 
 # --------------------------------------------------------------------------
 # part 2: the expression grammar
@@ -955,6 +989,8 @@ def gen():
             continue
         for sh in range(nsh):
             yield 'state-invariance', {'op': k, 'shard': sh, 'nshards': nsh}
+    for k in range(len(NAMED_OPS)):
+        yield 'kworder', {'op': k}
     for c in range(len(CFGS)):
         yield 'special', {'cfg': c}
     for s in range(len(STYLES)):
